@@ -27,7 +27,11 @@ that leaves behaviour unchanged, which the brief forbids. None of those alarms w
   (sorted, de-duplicated, also `!=`/`not in` under `and`), `not (a == b)` ≡ `a != b`, `if not A: X else: Y` ≡ `if A: Y else: X` (also for
   conditional expressions and `!=` tests), `(e & F) != 0` ≡ `bool(e & F)`, `x = x | E` ≡ `x |= E`, operands of `A | B | C` sorted. Only
   equivalences that hold for every value are applied; operands that get duplicated or dropped must be pure.
-* **decision tables with effects** (`symeval.py`): a function is evaluated abstractly from its entry with every parameter symbolic;
+* **decision tables with effects** (`symeval.py`): a path-sensitive abstract interpretation of ONE function body at a time -- a
+  syntax-directed enumeration of its control paths over an abstract domain of provenance-named values, constants and flag bit-vectors. It
+  is not execution: nothing of wcmatch is imported or run, loops are abstracted (one arbitrary iteration or skipped), callees outside the
+  rule's vocabulary are summarised in place, no path condition is ever handed to a solver -- feasibility is decided only by syntactic
+  facts (mutually exclusive constant comparisons, `is None` vs truthiness). A function is evaluated from its entry with every parameter symbolic;
   each path yields its decisions, its result and the *ordered events* it performs: calls (callee named by what it resolves to, receiver
   and arguments as values), yields, attribute stores, item stores, raises, list creations, end-of-iteration states. A value is named by
   its provenance (`os.fspath(root_dir)`, `elem(self.include).fullmatch(self.filename)`, `bit:flags:0x40`), never by the local that
@@ -231,8 +235,8 @@ TAIL = r'''### 6.5 Declined / not decided (honest limits)
   separators (C02-R3, CFG guards), the exception-escape and definite-assignment analyses (by design over the CFG), the recovery-pairing
   rule (C10-R4), the `base-rooted` part of C06-R3 and the rooted-argument rule C04-R7 (def-use over names, guards resolved through
   locals), the range-check guard of C10-R5, the budget-clamp contradiction rule (C11-R4, over every function), who-may-write rules, the
-  prologue extraction of the three `_sequence` scanners (C07-R6), the string-building site finders of `frag.py`. They compare conditions
-  propositionally after canonicalisation and inline single-assignment locals, and none of the 160 neutral refactorings trips them any
+  string-building site finders of `frag.py`, the taint rule for pattern-derived characters (C01-R5). They compare conditions
+  propositionally after canonicalisation and inline single-assignment locals, and none of the 200 neutral refactorings trips them any
   more, but they are not value-based. Each unseen set of refactorings so far found some rule of this kind (6.7); the next one may too.
 * When a function grows beyond what its table can enumerate (`max_paths`), or an anchor disappears, the rule reports
   `ANALYSIS-ERROR` (exit 2): undecided, never a silent pass.
@@ -242,7 +246,7 @@ TAIL = r'''### 6.5 Declined / not decided (honest limits)
 `./check <ID> --tier thorough` = quick pass + `variants.run_variants_for(ID)`: every breaking variant that lists ID must make the
 check exit 1 with a violated obligation whose key names the edited construct; every neutral variant must leave all 20 checks at
 exit 0; every confirmed seeded mutant of the property (6.4) must be reported by the property's own check. A failure is
-`ANALYSIS-ERROR` (exit 2). every neutral refactoring of 6.7 must leave the property's check at exit 0. Current: 115/115 breaking variants caught, 20/20 neutral variants silent.
+`ANALYSIS-ERROR` (exit 2). Every neutral refactoring of 6.7 must leave the property's check at exit 0. Current: 115/115 breaking variants caught, 20/20 neutral variants silent.
 
 '''
 
